@@ -144,6 +144,11 @@ type workerResult struct {
 
 func (p *Parent) spawn(args []string) workerResult {
 	cmd := exec.Command(p.workerBinary(), args...)
+	if p.Check.WorkerVMemKB > 0 {
+		// hard address-space limit for checks whose cases may blow up memory: sh -c 'ulimit -v N; exec "$0" "$@"' bin args...
+		sh := fmt.Sprintf("ulimit -v %d; exec \"$0\" \"$@\"", p.Check.WorkerVMemKB)
+		cmd = exec.Command("sh", append([]string{"-c", sh, p.workerBinary()}, args...)...)
+	}
 	cmd.Env = append(os.Environ(), "GOMAXPROCS=2", "GOTRACEBACK=single")
 	cmd.Env = append(cmd.Env, p.Check.WorkerEnv...)
 	stdout, _ := cmd.StdoutPipe()
